@@ -116,8 +116,14 @@ def binding_order_cases(rng, n):
     out = []
     for _ in range(n):
         a, b, c = (rng.choice([0, 1, 2, 3, 5, 7]) for _ in range(3))
-        shape = rng.randrange(4)
-        if shape == 0:
+        shape = rng.randrange(6)
+        if shape >= 4:
+            # an ORDER BY expression spelled exactly like an un-aliased target but bound to another parameter
+            m1, m2 = rng.choice([(3, 2), (2, 3), (5, 2), (2, 7)])
+            ptext = 'SELECT a, a % %s FROM #t ORDER BY a % %s' + (' DESC' if shape == 5 else '') + ', a'
+            ltext = f'SELECT a, a % {m1} FROM #t ORDER BY a % {m2}' + (' DESC' if shape == 5 else '') + ', a'
+            params = [m1, m2]
+        elif shape == 0:
             ptext = 'SELECT c0, %s AS tag FROM (SELECT a AS c0 FROM #t WHERE a < %s)'
             ltext = f'SELECT c0, {a} AS tag FROM (SELECT a AS c0 FROM #t WHERE a < {b})'
             params = [a, b]
@@ -483,6 +489,10 @@ LEDGER_STATEMENTS = [
     'SELECT date, narration FROM year = 2020 WHERE number > 0',
     'BALANCES', 'BALANCES FROM CLEAR', 'JOURNAL "Cash"', 'JOURNAL "Cash" FROM CLOSE ON 2020-03-15',
     'SELECT date, type FROM #entries', 'SELECT balance WHERE account ~ "Cash"',
+    "SELECT account, grep('cash', account), grep('Cash', account), subst('ASSETS', 'x', account)",
+    "SELECT date FROM has_account('cash') WHERE has_account('Cash') AND has_account('ASSETS')",
+    "SELECT findfirst('cash', other_accounts), grepn('(assets):(c)', account, 2)",
+    "SELECT date FROM has_account('(assets):(c)')",
     'SELECT account FROM #postings WHERE account IN (SELECT account FROM CLOSE ON 2020-02-15)',
 ]
 LEDGER_SRC = '''option "operating_currency" "USD"
@@ -505,6 +515,39 @@ LEDGER_SRC = '''option "operating_currency" "USD"
   Expenses:Food  7.50 USD
   Assets:Cash
 '''
+
+
+LEDGER_PARAM_STATEMENTS = [
+    ('BALANCES WHERE account ~ %s', ['Cash'], "BALANCES WHERE account ~ 'Cash'"),
+    ('BALANCES AT cost FROM year = %s WHERE account ~ %s', [2020, 'Assets'], "BALANCES AT cost FROM year = 2020 WHERE account ~ 'Assets'"),
+    ('BALANCES FROM year = %(y)s', {'y': 2020}, 'BALANCES FROM year = 2020'),
+    ("JOURNAL 'Cash' FROM year = %s", [2020], "JOURNAL 'Cash' FROM year = 2020"),
+    ("JOURNAL 'Food' AT units FROM month >= %(m)s", {'m': 2}, "JOURNAL 'Food' AT units FROM month >= 2"),
+    ('SELECT account, sum(position) FROM year = %s WHERE account ~ %s GROUP BY account ORDER BY account', [2020, 'Cash'],
+     "SELECT account, sum(position) FROM year = 2020 WHERE account ~ 'Cash' GROUP BY account ORDER BY account"),
+    ('SELECT date FROM #entries WHERE type = %s', ['price'], "SELECT date FROM #entries WHERE type = 'price'"),
+]
+
+
+def ledger_param_statements():
+    """Placeholders in every statement kind (BALANCES, JOURNAL, SELECT over the Beancount tables): same rows as the literal form."""
+    import os
+    path = _ledger_path()
+    bad = []
+    try:
+        conn = impl.beanquery.connect('beancount:' + path)
+        for ptext, params, ltext in LEDGER_PARAM_STATEMENTS:
+            def run(text, p):
+                try:
+                    return [0, [repr(r) for r in conn.execute(text, p).fetchall()]]
+                except Exception as e:  # noqa: BLE001
+                    return ['exception', type(e).__name__, str(e)[:100]]
+            a, b = run(ptext, params), run(ltext, None)
+            if a != b:
+                bad.append((ptext, params, a, b))
+    finally:
+        os.unlink(path)
+    return len(LEDGER_PARAM_STATEMENTS), bad
 
 
 def gen_ledger_history(rng):
@@ -578,7 +621,8 @@ def run(tier, rng):
                                              f'connection gives {want}', {'kind': 'same-cursor', 'history': h, 'got': got, 'want': want},
                                              signature=sig))
     lh = [gen_ledger_history(rng) for _ in range(60 if tier == 'quick' else 600)]
-    lh = [[2, 1], [4, 3], [10, 9], [6, 5], [0, 2, 0]] + lh
+    nst = len(LEDGER_STATEMENTS)
+    lh = [[2, 1], [4, 3], [10, 9], [6, 5], [0, 2, 0], [nst - 3, nst - 4], [nst - 4, nst - 3, nst - 4], [nst - 1, nst - 2], [nst - 2, nst - 1]] + lh
     for h, (got, want) in zip(lh, core.pmap(run_ledger_history, lh)):
         if got != want and len(seen) < 6:
             k = next(i for i, (g, w) in enumerate(zip(got, want)) if g != w)
@@ -588,6 +632,11 @@ def run(tier, rng):
                                              f'{LEDGER_STATEMENTS[h[k]]!r} returns {got[k]} but a fresh connection returns {want[k]}',
                                              {'kind': 'ledger-history', 'statements': [LEDGER_STATEMENTS[i] for i in h], 'got': got, 'want': want},
                                              signature=sig))
+    nlp, lpbad = ledger_param_statements()
+    for ptext, params, a, b in lpbad[:2]:
+        violations.append(core.Violation('params-as-literals', f'{ptext} {params!r}: with parameters {a}, with literals {b}',
+                                         {'kind': 'ledger-param', 'ptext': ptext, 'params': params, 'with_params': a, 'with_literals': b},
+                                         signature='ledger-params:' + ptext))
     nph_hist, folded_n, hist_ops = {}, 0, {}
     for c, (wp, wl) in zip(pc, p_impl):
         nph_hist[c['nph']] = nph_hist.get(c['nph'], 0) + 1
